@@ -4,6 +4,8 @@ From Coq Require Import NArith ZArith List Bool.
 Require Import Board Stack Rules Move Refine RefinePlace RefinePlace2 RefinePlace3 Slide1 Slide2 Slide3 Slide4 Slide5 Slide6 Slide7 Slide8 MoveRefines.
 Require Import HashInv GameOver Alloc Tps Generated.Consts.
 Require Import Preserve1 Preserve2 PreserveExt Preserve3 Preserve4 Preserve5 Preserve6 Reach1 HashMove1 PreserveEx PreserveOver64.
+Require Symmetry.
+Require Import TpsFacts TpsFacts5 Import1 Import2 Import3.
 Import ListNotations.
 
 (* Vocabulary (definitions in Preserve1.v, Preserve5.v, Preserve6.v, Reach1.v):
@@ -168,3 +170,83 @@ Theorem C01_nonvacuous_long_slide : pos_ok p14 /\ fits64 p14 m_long /\ mT m_long
     scratch_hash gen_basis p' = hash p'.
 Proof. exact ex_long_slide. Qed.
 Print Assumptions C01_nonvacuous_long_slide.
+
+
+(* ==================== THE IMPORT PATHS: tak.FromSquares, ptn.ParseTPS, the rebuilt symmetry images (Import1-3.v) ====================
+   Vocabulary (Import1.v, Import2.v, TpsFacts.v, TpsFacts5.v):
+   wf_square sq     the shape Position.At produces: non-empty, top of kind 1..3 (flat, wall, capstone), only flats below.
+   fit_board n b    3 <= n <= 8, n rows of n squares, every square [] or (wf_square and at most 64 high).
+   shape_board n b  the same without the height bound;  low_board b: every square at most 64 high.
+   piece_of         the Rules.v piece of a TPS piece;  pieces_of b: all pieces of the board;  dp n / dc n: tak.New's default stones / capstones.
+   count is_ws / is_wc / is_bs / is_bc   number of white stones (flats+walls) / white capstones / black stones / black capstones in a list.
+   dec8 a k         a uint8 decremented k times ((a + 255 k) mod 256): what FromSquares' `p.whiteStones--` loop computes.
+   counts_fit n b   per colour and kind, no more pieces on the board than the default count (then dec8 = subtraction).
+   board_apos n b mv   the abstract position with exactly those squares (map piece_of), reserves = defaults minus pieces on the board, ply mv,
+                    tie-break flag false (the model of FromSquares builds on tak.New with the default configuration). *)
+
+(* tak.FromSquares of a fitting board, any ply number: the C01 invariant holds - with NO hypothesis on the piece counts, the byte reserves
+   just wrap - and the position abstracts to exactly that board; the reserves are exactly `default - on board` under counts_fit. *)
+Theorem C01_from_squares_wf : forall n board mv, fit_board n board ->
+  let q := Tps.from_squares gen_basis (N.of_nat n) board mv in
+  pos_ok q /\ size q = N.of_nat n /\ Move.move q = mv /\ Move.black_wins_ties q = false /\
+  sq (abs q) = map (map piece_of) (concat board) /\
+  whiteStones q = dec8 (dp n) (count is_ws (pieces_of board)) /\ whiteCaps q = dec8 (dc n) (count is_wc (pieces_of board)) /\
+  blackStones q = dec8 (dp n) (count is_bs (pieces_of board)) /\ blackCaps q = dec8 (dc n) (count is_bc (pieces_of board)) /\
+  (counts_fit n board -> abs q = board_apos n board mv).
+Proof. exact from_squares_wf. Qed.
+Print Assumptions C01_from_squares_wf.
+
+(* ... and then its reserves are the default counts minus what At reads off its own board (the hypothesis of C10 / C14) *)
+Theorem C01_from_squares_reserves_match : forall n board mv, fit_board n board -> counts_fit n board ->
+  reserves_match_board (Tps.from_squares gen_basis (N.of_nat n) board mv).
+Proof. exact from_squares_reserves_match. Qed.
+Print Assumptions C01_from_squares_reserves_match.
+
+(* the reserve hypothesis is exact: 11 white flats on a 3x3 board (10 in the reserve) wrap the byte counter to 255; pos_ok still holds *)
+Theorem C01_reserve_hypothesis_exact :
+  fit_board 3 ex_over3 /\ ~ counts_fit 3 ex_over3 /\ pos_ok (Tps.from_squares gen_basis 3 ex_over3 0) /\
+  whiteStones (Tps.from_squares gen_basis 3 ex_over3 0) = 255%N.
+Proof. exact ex_reserve_wraps. Qed.
+Print Assumptions C01_reserve_hypothesis_exact.
+
+(* ptn.ParseTPS: whatever text it accepts, the result is FromSquares of a board of the right shape (no hypothesis) ... *)
+Theorem C01_parse_tps_shape : forall basis s q, Tps.parse_tps basis s = Ok q ->
+  exists n board mv, q = Tps.from_squares basis (N.of_nat n) board mv /\ shape_board n board.
+Proof. exact parse_tps_shape. Qed.
+Print Assumptions C01_parse_tps_shape.
+
+(* ... so, when no parsed stack is above 64 (the parser itself puts no bound on the height), the parsed position satisfies the invariant and
+   abstracts to the parsed board *)
+Theorem C01_parse_tps_wf : forall s q, Tps.parse_tps gen_basis s = Ok q ->
+  exists n board mv, q = Tps.from_squares gen_basis (N.of_nat n) board mv /\ shape_board n board /\
+    size q = N.of_nat n /\ Move.move q = mv /\ Move.black_wins_ties q = false /\
+    (low_board board ->
+       pos_ok q /\ sq (abs q) = map (map piece_of) (concat board) /\
+       (counts_fit n board -> abs q = board_apos n board mv)).
+Proof. exact parse_tps_wf. Qed.
+Print Assumptions C01_parse_tps_wf.
+
+(* the height hypothesis cannot be dropped: "x3/x3/1{65},x2 1 40" parses, Height[0] = 65, the invariant fails (and the 65th piece has no
+   bit in the stack word) *)
+Theorem C01_parse_tps_over64_refuted : exists q, Tps.parse_tps gen_basis tall_text = Ok q /\ nthN (Height q) 0 = 65%N /\ ~ pos_ok q.
+Proof. exact ex_parse_tall. Qed.
+Print Assumptions C01_parse_tps_over64_refuted.
+
+(* the positions symmetry.Symmetries rebuilds (Position.At of every square, permuted by ANY coordinate map s, through FromSquares) *)
+Theorem C01_image_pos_ok : forall p s, pos_ok p -> pos_ok (Symmetry.image gen_basis p s).
+Proof. exact image_pos_ok. Qed.
+Print Assumptions C01_image_pos_ok.
+
+(* NON-VACUITY: the text "x4,2/x5/x2,21S,x2/x,2112212C,x3/1,x2,1C,x 2 7" (ex_tps5) parses to the position of the next example *)
+Theorem C01_nonvacuous_parse_tps : exists q, Tps.parse_tps gen_basis ex_tps5 = Ok q /\ pos_ok q /\ abs q = board_apos 5 ex_board5 13.
+Proof. exact ex_parse_tps_wf. Qed.
+Print Assumptions C01_nonvacuous_parse_tps.
+
+(* NON-VACUITY: a 5x5 board with a seven-high stack under a black capstone, a wall on a flat, a lone capstone *)
+Theorem C01_nonvacuous_from_squares :
+  let q := Tps.from_squares gen_basis 5 ex_board5 13 in
+  pos_ok q /\ abs q = board_apos 5 ex_board5 13 /\
+  nth 6 (sq (abs q)) [] = [(Rules.Black, Cap); (Rules.White, Flat); (Rules.Black, Flat); (Rules.Black, Flat); (Rules.White, Flat); (Rules.White, Flat); (Rules.Black, Flat)] /\
+  wstones (abs q) = 16%N /\ wcaps (abs q) = 0%N /\ bstones (abs q) = 16%N /\ bcaps (abs q) = 0%N.
+Proof. exact ex_from_squares_wf. Qed.
+Print Assumptions C01_nonvacuous_from_squares.
